@@ -29,8 +29,10 @@ type urlCase struct {
 // nameCase: naming operations and look-ups.
 type nameCase struct {
 	Routes  []string    `json:"routes"`
-	Naming  [][2]string `json:"naming"`  // (route index as text | "combo:<idx>", name) in order
-	Lookups []string    `json:"lookups"` // names to build
+	Naming  [][2]string `json:"naming"`                    // (route index as text | "combo:<idx>", name) in order
+	Lookups []string    `json:"lookups"`                   // names to build
+	Env     string      `json:"env,omitempty"`             // process environment during the look-ups (serial cases only): unknown names panic in every environment
+	ViaCtx  bool        `json:"through_context,omitempty"` // look-ups are made by a handler through Context.URLPath while a request is served
 }
 
 // invCase: inverse direction – dispatch a request to a named route and rebuild its path.
@@ -160,13 +162,18 @@ func genURLCase(rng *rand.Rand) *urlCase {
 	}
 	for k := rng.Intn(3); k > 0; k-- { // unknown / repeated names
 		name := []string{"zz", "nope", "x", "y", "route", "capture", "X"}[rng.Intn(7)]
+		if len(binds) > 0 && rng.Intn(4) == 0 {
+			// a name that merely wraps a bind name in braces is an unknown name
+			b := binds[rng.Intn(len(binds))]
+			name = []string{"{" + b + "}", "{" + b, b + "}", "{withOptional}", " " + b, b + " "}[rng.Intn(6)]
+		}
 		c.Pairs = append(c.Pairs, core.B(name), core.B(urlValues[rng.Intn(len(urlValues))]))
 	}
 	switch rng.Intn(5) {
 	case 0, 1:
 		c.Pairs = append(c.Pairs, "withOptional", "true")
 	case 2:
-		c.Pairs = append(c.Pairs, "withOptional", core.B([]string{"false", "TRUE", "1", "", "yes"}[rng.Intn(5)]))
+		c.Pairs = append(c.Pairs, "withOptional", core.B([]string{"false", "TRUE", "1", "", "yes", "true ", " true", "true\n", "\ttrue", "True", "t", "truee"}[rng.Intn(12)]))
 	}
 	if rng.Intn(10) == 0 {
 		c.Pairs = append(c.Pairs, core.B([]string{"x", "dangling", "withOptional"}[rng.Intn(3)])) // a name without value
@@ -365,6 +372,7 @@ func genNameCase(rng *rand.Rand) *nameCase {
 		c.Naming = append(c.Naming, [2]string{who, names[rng.Intn(len(names))]})
 	}
 	for k := 1 + rng.Intn(3); k > 0; k-- {
+		c.ViaCtx = rng.Intn(3) == 0
 		c.Lookups = append(c.Lookups, []string{"n1", "n2", "zz", "", "N1", "home", "HOME", "Home", "\u212aelvin", "kelvin", "Kelvin", "home ", " home", "hom", "homee", "users.show", "users_show", "USERS.SHOW", "n1\x00"}[rng.Intn(19)])
 	}
 	return c
@@ -410,12 +418,29 @@ func judgeNames(w *core.W, c *nameCase) {
 			named[nm[1]] = c.Routes[idx]
 		}
 	}
+	cur := ""
+	var got string
+	if c.ViaCtx {
+		f.Get("/__lookup", func(ctx flamego.Context) { got = ctx.URLPath(cur, "x", "V", "withOptional", "true") })
+		w.Count("name-lookups-through-context")
+	}
+	if c.Env != "" {
+		prev := flamego.Env()
+		flamego.SetEnv(flamego.EnvType(c.Env))
+		defer flamego.SetEnv(prev)
+		w.Count("name-lookups-under-env:" + c.Env)
+	}
 	for _, n := range c.Lookups {
 		rtxt, ok := named[n]
 		var pan interface{}
-		var got string
+		got = ""
 		func() {
 			defer func() { pan = recover() }()
+			if c.ViaCtx {
+				cur = n
+				f.ServeHTTP(httptest.NewRecorder(), &http.Request{Method: "GET", URL: &url.URL{Path: "/__lookup"}, Header: http.Header{}})
+				return
+			}
 			got = f.URLPath(n, "x", "V", "withOptional", "true")
 		}()
 		w.Count("name-lookups")
@@ -521,7 +546,7 @@ func judgeInverse(w *core.W, c *invCase) {
 
 func runC12(r *core.Run) {
 	r.Rule("(a) builds: one accepted route (all four kinds, multi-parameter lists, optional/empty final segment, root) x value assignments over hostile values ({x}-looking values, braces, slashes, escapes, empty, long, non-UTF-8), subsets of binds, unknown and repeated names, withOptional true/false/garbage, dangling name; through Router.URLPath, Context.URLPath and Leaf.URLPath. Oracle: renderer driven by the generated derivation (simultaneous substitution, annotations dropped). (b) inverse: requests dispatched to named routes rebuild their own path through Context.URLPath(params, withOptional iff used). (c) naming: empty / duplicate / unknown names must panic - unknown names include case variants, Unicode case-fold variants, padded, truncated and extended spellings of registered names; router-level builds are repeated with the very same argument slice. non-trivial = distinct builds where a value looks like another bind of the route, or a bind is unsupplied, or the route has a multi-parameter list / optional segment (plus distinct inverse and naming cases)")
-	r.Assume("names containing braces are not generated (they are not bind names and their effect on a one-pass replacer depends on map order)")
+	r.Assume("of names containing braces only a bind name wrapped in (or followed / preceded by) one brace is generated: other brace-carrying names are not bind names and their effect on a one-pass replacer depends on map order")
 	c12Canaries(r)
 	n := r.N(60000, 3000000)
 	r.Parallel("url", n, func(w *core.W, rng *rand.Rand, i int) {
@@ -534,6 +559,19 @@ func runC12(r *core.Run) {
 		w.Begin("names", c)
 		judgeNames(w, c)
 	})
+	// look-ups through Context.URLPath under each process environment (the environment is process-global: serial)
+	ws := r.Serial()
+	for i := 0; i < r.N(600, 20000); i++ {
+		rng := r.Rand("names-env", i)
+		c := genNameCase(rng)
+		c.ViaCtx = true
+		c.Env = []string{"production", "development", "test"}[i%3]
+		ws.Begin("names", c)
+		judgeNames(ws, c)
+	}
+	ws.Done()
+	ws.Merge()
+	r.GateCounter("name-lookups-under-env:production", 100)
 	r.Parallel("inverse", r.N(2000, 100000), func(w *core.W, rng *rand.Rand, i int) {
 		set := gen.GenSet(rng, gen.Cfg{AllowRoot: true}, 6)
 		c := &invCase{}
